@@ -27,7 +27,8 @@ struct vf_in IN;
 /* ---------------------------------------------------------------- native replay */
 #include <unistd.h>
 #define VF_ASSUME(c) do { if (!(c)) { fprintf(stderr, "VF_ASSUME not satisfied: %s (%s:%d)\n", #c, __FILE__, __LINE__); exit(77); } } while (0)
-#define VF_ASSERT(c, msg) do { if (!(c)) { fprintf(stderr, "VF_ASSERT failed: %s (%s:%d)\n", msg, __FILE__, __LINE__); fflush(stderr); _exit(1); } } while (0)
+static void vf_dump_inputs(void);
+#define VF_ASSERT(c, msg) do { if (!(c)) { fprintf(stderr, "VF_ASSERT failed: %s (%s:%d)\n", msg, __FILE__, __LINE__); if (getenv("VF_SEARCH")) vf_dump_inputs(); fflush(stderr); _exit(1); } } while (0)
 #define VF_WITNESS(name) do { } while (0)
 #define VF_BOUND(c, msg) do { if (!(c)) { fprintf(stderr, "VF_BOUND exceeded: %s\n", msg); exit(78); } } while (0)
 static int vf_hexval(int c) { return (c >= '0' && c <= '9') ? c - '0' : (c >= 'a' && c <= 'f') ? c - 'a' + 10 : (c >= 'A' && c <= 'F') ? c - 'A' + 10 : -1; }
@@ -53,6 +54,8 @@ static void vf_inputs(int argc, char **argv)
     memset(&IN, 0, sizeof IN);
     VF_INPUTS(VF_LOAD)
 }
+#define VF_DUMP(type, name, suffix) { size_t i_; fprintf(stderr, "VF_INPUT %s ", #name); for (i_ = 0; i_ < sizeof IN.name; i_++) fprintf(stderr, "%02x", ((unsigned char *)&IN.name)[i_]); fprintf(stderr, "\n"); }
+static void vf_dump_inputs(void) { VF_INPUTS(VF_DUMP) }
 #define VF_MAIN_ARGS int argc, char **argv
 #define VF_INIT() vf_inputs(argc, argv)
 #define VF_NONNULL(p) do { if (!(p)) { fprintf(stderr, "out of memory in harness\n"); exit(79); } } while (0)
